@@ -1,4 +1,5 @@
-PLAN["C17"] = [{"world": "sync", "share": 1, "gomaxprocs": 2,
+PLAN["C17"] = [{"world": "chain", "share": 1, "probes": ["ancestor-search-found", "ancestor-search-none"]},
+               {"world": "sync", "share": 3, "gomaxprocs": 2,
                 "probes": ["session-success", "session-error-stop", "second-session-started", "final-sync-complete",
                            "full-scan-ran", "full-scan-ancestor", "light-scan-none", "light-scan-ancestor",
                            "multi-hashset", "parallel-fetch-tasks", "task-retried",
@@ -56,3 +57,5 @@ MAN["C17"] = {
     "technique": "deterministic simulation: real concurrent component in a testing/synctest bubble (fake clock, quiescence stepping), seeded response schedules with fault injection at the "
                  "network boundary, safety oracles on every output and bounded-liveness oracle after faults stop, ddmin-minimised replay",
 }
+
+RULES["C17"] = RULES["C17"] + (" A quarter of the workers run the CHAIN world with the responder-side oracle: after every delivered block the node under test (which holds main chain, side branches and forged blocks) is asked for the common ancestor with generated identifier lists (highest first, incl. unknown ones) through the real ChainService.findAncestor; it must name the first identifier that is on its main chain (judged through the height index) or none.")
